@@ -43,7 +43,7 @@ def strategy(tier, unit):
             "uiso": num(), "biso": num(), "aniso": st.lists(num(), min_size=6, max_size=6),
             "occ": num(), "mult": st.integers(1, 192)})
         return st.fixed_dictionaries({
-            "k": st.just("cif"), "sgno": st.integers(1, 230), "blanks": st.lists(st.booleans(), min_size=10, max_size=10),
+            "k": st.just("cif"), "sgno": st.integers(1, 230), "rhomb": st.integers(0, 9), "blanks": st.lists(st.booleans(), min_size=10, max_size=10),
             "cell": st.lists(num(), min_size=6, max_size=6), "conform": st.booleans(),
             "atoms": st.lists(atom, min_size=1, max_size=12), "labels": st.lists(label, min_size=12, max_size=12, unique=True),
             "adp_present": st.sampled_from([True, True, True, False]), "occ_present": st.booleans(),
@@ -86,8 +86,15 @@ def elements():
     return list(atomlib.formfactor.keys())
 
 
+def cif_group(case):
+    """the setting a CIF case is about: one of the 230 standard ones, or (one case in ten) a rhombohedral-axes setting"""
+    if case.get("rhomb", 1) == 0:
+        return GR.group(GR.RHOMB[case["sgno"] % 7], "rhombohedral")
+    return GR.group(case["sgno"], "standard")
+
+
 def write_cif(case):
-    g = GR.group(case["sgno"], "standard")
+    g = cif_group(case)
     nm = g.name
     bl = case["blanks"]
     sym = "".join(ch + (" " if bl[i % len(bl)] else "") for i, ch in enumerate(nm)).strip()
@@ -300,7 +307,7 @@ def check_cif(case, ctx, tmp):
     if len(al.atom) != len(exp["atoms"]):
         ctx.fail("cif/atom-count", "%d atoms read, %d in the file" % (len(al.atom), len(exp["atoms"])))
         return
-    g = GR.group(case["sgno"], "standard")
+    g = cif_group(case)
     for a, e in zip(al.atom, exp["atoms"]):
         if a.label != e["label"]:
             ctx.fail("cif/label", "label %r vs %r" % (a.label, e["label"]))
